@@ -140,15 +140,19 @@ func (h *NFSProcedureHandler) handleSetattr(body io.Reader, reply *RPCReply, aut
 		node.mu.RUnlock()
 		return nfsErrorWithWcc(reply, NFSERR_IO), nil
 	}
+	// These attributes replace the node's cached ones, so they must keep what
+	// SETATTR cannot change: the object's type, fileid and size.
 	attrs := &NFSAttrs{
-		Mode: node.attrs.Mode,
-		Uid:  node.attrs.Uid,
-		Gid:  node.attrs.Gid,
+		Mode:   node.attrs.Mode,
+		Size:   node.attrs.Size,
+		FileId: node.attrs.FileId,
+		Uid:    node.attrs.Uid,
+		Gid:    node.attrs.Gid,
 	}
 	node.mu.RUnlock()
 
 	if sattr.SetMode {
-		attrs.Mode = os.FileMode(sattr.Mode)
+		attrs.Mode = attrs.Mode&os.ModeType | os.FileMode(sattr.Mode)&^os.ModeType
 	}
 	if sattr.SetUID {
 		if authCtx.EffectiveUID == 0 {
